@@ -746,3 +746,58 @@ Qed.
 Theorem push_additive_col_refuted :
   exists s t, col (end_loc true (s ++ t)) <> N.min (col (end_loc true s) + col (end_loc true t)) U16MAX.
 Proof. exists [(1, COther); (1, COther)], [(1, COther); (1, CNl); (1, COther)]. vm_compute. discriminate. Qed.
+
+(** * The formatter's running end location equals end_loc of its output (6889e96) *)
+Record out_inv (o : output) : Prop := {
+  oi_line : o_line o = wrap16 (nlen (filter is_nl (rev (o_rev o))));
+  oi_col : o_col o = out_true_col (rev (o_rev o));
+  oi_chars : o_chars o = nlen (rev (o_rev o))
+}.
+
+Lemma wrap16_add_l a b : wrap16 (wrap16 a + b) = wrap16 (a + b).
+Proof. unfold wrap16. apply N.add_mod_idemp_l. discriminate. Qed.
+Lemma wrap16_succ_pred n : wrap16 (wrap16 (n + 1) + 65535) = wrap16 n.
+Proof.
+  rewrite wrap16_add_l. unfold wrap16. replace (n + 1 + 65535) with (n + 1 * 65536) by lia.
+  apply N.mod_add. discriminate.
+Qed.
+
+Lemma out_true_col_snoc t c : out_true_col (t ++ [c]) = if is_nl c then 0 else out_true_col t + 1.
+Proof.
+  unfold out_true_col. rewrite last_line_snoc. destruct (is_nl c); [reflexivity|].
+  rewrite nlen_app. reflexivity.
+Qed.
+
+Lemma ostep_inv o a : out_inv o -> out_inv (ostep o a).
+Proof.
+  intros [Hl Hc Hn]. destruct a as [c|]; cbn [ostep].
+  - constructor; cbn [o_rev o_line o_col o_chars rev].
+    + rewrite filter_app, nlen_app. cbn [filter]. destruct (is_nl c).
+      * rewrite Hl, wrap16_add_l. reflexivity.
+      * rewrite Hl. cbn [nlen length]. unfold nlen at 2. cbn [length]. rewrite N.add_0_r. reflexivity.
+    + rewrite out_true_col_snoc, Hc. reflexivity.
+    + rewrite nlen_app, Hn. reflexivity.
+  - destruct (o_rev o) as [|c r] eqn:E; [constructor; rewrite ?E; assumption|].
+    cbn [rev] in *. rewrite filter_app, nlen_app in Hl. cbn [filter] in Hl.
+    rewrite out_true_col_snoc in Hc. rewrite nlen_app in Hn.
+    constructor; cbn [o_rev o_line o_col o_chars].
+    + destruct (is_nl c).
+      * rewrite Hl. unfold nlen at 2. cbn [length]. apply wrap16_succ_pred.
+      * rewrite Hl. unfold nlen at 2. cbn [length]. rewrite N.add_0_r. reflexivity.
+    + destruct (is_nl c); [rewrite lrev_rev; reflexivity | rewrite Hc; lia].
+    + rewrite Hn. unfold nlen at 2. cbn [length]. lia.
+Qed.
+
+Lemma out_inv0 : out_inv out0.
+Proof. constructor; reflexivity. Qed.
+
+(** for every sequence of pushed and popped characters the location read from the running
+    counters is end_loc of the text written so far *)
+Theorem running_end_loc ops :
+  let o := fold_left ostep ops out0 in out_end_loc o = end_loc true (out_text o).
+Proof.
+  cbn zeta. assert (I : out_inv (fold_left ostep ops out0)).
+  { generalize out_inv0. generalize out0. induction ops as [|a ops IH]; intros o Ho; cbn [fold_left]; [assumption|].
+    apply IH. apply ostep_inv. assumption. }
+  destruct I as [Hl Hc Hn]. unfold out_end_loc, end_loc, out_text. rewrite lrev_rev, Hl, Hc, Hn. reflexivity.
+Qed.
